@@ -264,9 +264,14 @@ fn c09(s: &Solution, grid: &[(f64, Vec<f64>)], specs: &[EventSpec], dir: f64, kn
         // two event functions firing in the same step
         tags.push("multi-event");
     }
-    // an event with a single known root: exactly one event there (if the direction matches)
-    if let Some(c) = known_root {
-        let sp = &specs[0];
+    // event functions with a single known root (every ±(t-c) of the configuration, whatever its
+    // index): exactly one event there (if the direction matches)
+    let _ = known_root;
+    for (fi, sp) in specs.iter().enumerate() {
+        let c = match sp.kind {
+            EvKind::T(c) | EvKind::NegT(c) => c,
+            _ => continue,
+        };
         let not_endpoint = gt.iter().all(|t| *t != c);
         let rising_in_time = matches!(sp.kind, EvKind::T(_));
         let rising_along = if dir > 0.0 { rising_in_time } else { !rising_in_time };
@@ -276,15 +281,15 @@ fn c09(s: &Solution, grid: &[(f64, Vec<f64>)], specs: &[EventSpec], dir: f64, kn
             Direction::Negative => !rising_along,
         };
         if not_endpoint {
-            let te = &s.t_events[0];
+            let te = &s.t_events[fi];
             if matches_dir {
-                let tol = 2e-11f64.max(4e-12 / sp.scale.abs().max(1e-300) * 0.0 + 2e-11);
+                let tol = 2e-11f64;
                 if te.len() != 1 || (te[0] - c).abs() > tol {
-                    v.push(("single-root".into(), format!("g = ±(t-c) with c={:e}: reported events {:?}", c, te)));
+                    v.push(("single-root".into(), format!("event function {}: g = ±(t-c) with c={:e}: reported events {:?}", fi, c, te)));
                 }
                 tags.push("single-root-checked");
             } else if !te.is_empty() {
-                v.push(("single-root".into(), format!("g = ±(t-c) with c={:e} and a non-matching direction filter reported {:?}", c, te)));
+                v.push(("single-root".into(), format!("event function {}: g = ±(t-c) with c={:e} and a non-matching direction filter reported {:?}", fi, c, te)));
             }
         }
     }
@@ -362,6 +367,9 @@ fn run_case_c0809(cx: &Ctx, key: &str, ec: &EvCase, mode: Mode) -> CaseOut {
             }
             match mode {
                 Mode::C08 => c08(s, &cx.grid, &ec.specs, dir, cx.ymax, cx.dymax, &mut vs, &mut tags),
+                // (a run cut short by a terminal event is judged by the block above: what the
+                // integration met before the stop is reported, nothing else)
+                _ if has_term => {}
                 _ => c09(s, &cx.grid, &ec.specs, dir, ec.known_root, &mut vs, &mut tags),
             }
             out.validated = s.t_events.iter().map(|l| l.len() as u64).sum::<u64>() + (cx.grid.len() as u64 - 1) * ec.specs.len() as u64;
@@ -567,9 +575,6 @@ pub fn run_check(mode: Mode, replay: Option<Value>) -> i32 {
         for (ci, ec) in cx.cases.iter().enumerate() {
             match mode {
                 Mode::C08 | Mode::C09 => {
-                    if mode == Mode::C09 && ec.specs.iter().any(|e| e.terminal.is_some()) {
-                        continue; // C09 speaks about complete runs
-                    }
                     jobs.push((format!("{}:{}", cx.key, ci), ci, 0, 0, false, false))
                 }
                 Mode::C10 => {
